@@ -107,8 +107,11 @@ Fixpoint get_use_tree (p : prog) (fuel : nat) (sc : scp) (d : udict) (only : lis
                    let '(o', r') := merge_existing ml mr (i_only old) (i_ren old) in
                    let d' := sset (u_mod u) (UI o' r') d in
                    if length o' =? old_len then go r d' else descend d'
+                 | S _, [] =>
+                   (* an ONLY list widened to the whole module: revisit what the module uses (fix ee7556d, `widened`) *)
+                   descend (sset (u_mod u) (UI [] []) d)
                  | _, _ =>
-                   (* use_dict[mod] = Use(mod): everything; the old object is unchanged, so no descent *)
+                   (* use_dict[mod] = Use(mod): everything; already everything before, so no descent *)
                    go r (sset (u_mod u) (UI [] []) d)
                  end
                | None => descend (d ++ [(u_mod u, UI ml mr)])
